@@ -369,7 +369,7 @@ OpStep(e) ==
       \* within a fixed multiple (deliberately generous: 16x) of the space needed for nk elements
       chkChurn == (hd.churn = 1 /\ hd.nk > 0) =>
                     \A i \in 1..hd.nt : lvAfter(i) => obsX[i].asz <= 16 * LayoutSize(hd.es, hd.ea, CapToBuckets(hd.nk, hd.es))
-      chkPanic == e.pn \in {"", "index", "dup", "noteq"}
+      chkPanic == e.pn \in {"", "index", "dup", "noteq"} \/ (e.pn = "consumer" /\ e.op \in {"par_drain", "into_par_iter"} /\ e.n = 2)
       opp == OpProp(e.op, hd.kind)
       \* (a table whose observed state did not change was checked when it last changed)
       invd == UNION {InvDiag(obsT[i], FALSE, hd.kind # "table") : i \in {j \in 1..hd.nt : lvAfter(j) /\ obsT[j] # tb[j]}}
